@@ -357,6 +357,23 @@ func (w *wdWorld) previewRequests(fresh []newWd, rbfs, cancels []WdRef) map[uint
 	return v
 }
 
+// sameHashOtherKind re-wraps the hash bytes of a standard script into another standard template.
+func sameHashOtherKind(script []byte) []byte {
+	switch {
+	case len(script) == 34 && script[0] == 0x00 && script[1] == 0x20: // P2WSH -> P2TR
+		return append([]byte{0x51, 0x20}, script[2:]...)
+	case len(script) == 34 && script[0] == 0x51 && script[1] == 0x20: // P2TR -> P2WSH
+		return append([]byte{0x00, 0x20}, script[2:]...)
+	case len(script) == 22 && script[0] == 0x00 && script[1] == 0x14: // P2WPKH -> P2PKH
+		return append(append([]byte{0x76, 0xa9, 0x14}, script[2:]...), 0x88, 0xac)
+	case len(script) == 25 && script[0] == 0x76: // P2PKH -> P2SH
+		return append(append([]byte{0xa9, 0x14}, script[3:23]...), 0x87)
+	case len(script) == 23 && script[0] == 0xa9: // P2SH -> P2PKH
+		return append(append([]byte{0x76, 0xa9, 0x14}, script[2:22]...), 0x88, 0xac)
+	}
+	return nil
+}
+
 func strangerScript(i int) []byte {
 	return world.P2WPKHScript(world.Hash160([]byte(fmt.Sprintf("stranger-%d", i))))
 }
@@ -408,7 +425,7 @@ func (w *wdWorld) buildTx(t *WdTx, rv world.RelayerView, view map[uint64]*wdView
 			x := view[id]
 			mut := 0
 			if i < len(t.OutMut) {
-				mut = t.OutMut[i] % 4
+				mut = t.OutMut[i] % 5
 			}
 			script := x.script
 			if script == nil {
@@ -424,6 +441,13 @@ func (w *wdWorld) buildTx(t *WdTx, rv world.RelayerView, view map[uint64]*wdView
 				ok = false
 			case 3:
 				value = x.amount
+			case 4:
+				// the same hash / witness program under another script kind (P2WSH <-> P2TR, P2PKH <-> P2SH, P2WPKH -> P2PKH)
+				if alt := sameHashOtherKind(script); alt != nil {
+					script = alt
+					ok = false
+					o.Classes = append(o.Classes, "same-hash-other-script-kind")
+				}
 			}
 			if t.Kind == "process" {
 				if x.status != "pending" && x.status != "canceling" {
@@ -660,7 +684,7 @@ func (w *wdWorld) buildTx(t *WdTx, rv world.RelayerView, view map[uint64]*wdView
 			idx = uint32(pos) ^ 1
 			ok = false
 		}
-		switch t.Proof % 3 {
+		switch t.Proof % 4 {
 		case 1:
 			proof = append([]byte{}, proof...)
 			proof[5] ^= 0x10
@@ -668,6 +692,14 @@ func (w *wdWorld) buildTx(t *WdTx, rv world.RelayerView, view map[uint64]*wdView
 		case 2:
 			proof = nil
 			ok = false
+		case 3:
+			// the claimed id is a voted candidate, but the block and proof are those of ANOTHER candidate of the batch
+			if t.Cand >= 0 && len(proc.txids) >= 2 && !t.AtZero && t.Mined%3 == 0 {
+				candTxid = proc.txids[(ci+1)%len(proc.txids)]
+				ci = (ci + 1) % len(proc.txids)
+				ok = false
+				o.Classes = append(o.Classes, "candidate-id-over-another-candidates-proof")
+			}
 		}
 		for _, id := range proc.ids {
 			if view[id].status != "processing" {
@@ -772,7 +804,7 @@ func genWdCase(t *rapid.T) WdCase {
 				tx.Refs = append(tx.Refs, rapid.IntRange(0, 40).Draw(t, "ref"))
 				m := 0
 				if rapid.IntRange(0, 7).Draw(t, "outMutRoll") == 0 {
-					m = rapid.IntRange(1, 3).Draw(t, "outMut")
+					m = rapid.IntRange(1, 4).Draw(t, "outMut")
 				}
 				tx.OutMut = append(tx.OutMut, m)
 			}
@@ -787,7 +819,7 @@ func genWdCase(t *rapid.T) WdCase {
 			} else {
 				tx.Mined = rapid.IntRange(0, 2).Draw(t, "mined")
 				tx.Pos = rapid.IntRange(0, 3).Draw(t, "pos")
-				tx.Proof = rapid.IntRange(0, 2).Draw(t, "proof")
+				tx.Proof = rapid.IntRange(0, 3).Draw(t, "proof")
 				tx.AtZero = rapid.IntRange(0, 5).Draw(t, "atZero") == 0
 			}
 			b.Tx = tx
@@ -801,6 +833,6 @@ func TestC05_Withdrawals(t *testing.T) {
 	RunProp(t, Prop[WdCase]{
 		ID: "C05", Name: "lifecycle", Quick: 640, Thor: 10_000,
 		Gen: genWdCase, Run: runWdCase,
-		Rule: "histories of 5-40 blocks: execution-layer requests Withdraw (fresh id; P2WPKH/P2WSH/P2TR/P2PKH/P2SH of the configured network, garbage, pay-to-pubkey hex, other-network address; amount; maximum fee rate), fee updates and cancellations over earlier ids, and relayer messages Process (1-5 ids of any status with duplicates; per output right/wrong script, value below/equal/above the request; 0/1/2 extra outputs paying the current key, an old key, the key rotated out by an earlier voted NewPubkey of the same history, or a stranger; fee giving a rate below/at/above the tightest maximum), Replace (fee lower/equal/higher, identical transaction), Finalize (original / fee-bumped / foreign txid, also claimed over the genuine proof of the newest candidate; block voted / not voted / wrong header; position true / 0 / alias / neighbour / mined as first transaction; proof genuine / flipped / empty) and ApproveCancellation, all with honest votes; reference state machine decides every transaction and every Query/Withdrawal record; per id the paid/refund notices received by the fake execution layer are <= 1 at all times, = 1 after a drain iff terminal, of the right kind and with the finalised candidate's txid/output/amount; non-trivial = some id received >= 2 competing actions, a duplicate id in a batch, or an earlier candidate finalised; evaluations count blocks",
+		Rule: "histories of 5-40 blocks: execution-layer requests Withdraw (fresh id; P2WPKH/P2WSH/P2TR/P2PKH/P2SH of the configured network, garbage, pay-to-pubkey hex, other-network address; amount; maximum fee rate), fee updates and cancellations over earlier ids, and relayer messages Process (1-5 ids of any status with duplicates; per output right/wrong script/the same hash under another script kind, value below/equal/above the request; 0/1/2 extra outputs paying the current key, an old key, the key rotated out by an earlier voted NewPubkey of the same history, or a stranger; fee giving a rate below/at/above the tightest maximum), Replace (fee lower/equal/higher, identical transaction), Finalize (original / fee-bumped / foreign txid, also claimed over the genuine proof of the newest candidate; block voted / not voted / wrong header; position true / 0 / alias / neighbour / mined as first transaction; proof genuine / flipped / empty / that of another candidate of the batch) and ApproveCancellation, all with honest votes; reference state machine decides every transaction and every Query/Withdrawal record; per id the paid/refund notices received by the fake execution layer are <= 1 at all times, = 1 after a drain iff terminal, of the right kind and with the finalised candidate's txid/output/amount; non-trivial = some id received >= 2 competing actions, a duplicate id in a batch, or an earlier candidate finalised; evaluations count blocks",
 	})
 }
